@@ -439,7 +439,7 @@ func (r *Reader) seek(rec record) (*tableIter, error) {
 	}
 
 	tabIter, err := r.start(rec.typ(), false)
-	if err != nil {
+	if err != nil || tabIter == nil {
 		return nil, err
 	}
 
@@ -455,6 +455,10 @@ func (r *Reader) seekIndexed(want record) (*tableIter, error) {
 	idxIter, err := r.start(want.typ(), true)
 	if err != nil {
 		return nil, err
+	}
+	if idxIter == nil {
+		// The footer points at something that is not an index block.
+		return nil, fmtError
 	}
 
 	wantIdx := &indexRecord{
@@ -476,9 +480,17 @@ func (r *Reader) seekIndexed(want record) (*tableIter, error) {
 			return nil, err
 		}
 
+		if rec.Offset >= idxIter.blockOff {
+			// Index blocks come after the blocks they point to. This
+			// also keeps corrupt indexes from forming a cycle.
+			return nil, fmtError
+		}
 		tabIter, err := r.tabIterAt(rec.Offset, blockTypeAny)
 		if err != nil {
 			return nil, err
+		}
+		if tabIter == nil {
+			return nil, fmtError
 		}
 
 		err = tabIter.bi.seek(want.key())
@@ -491,7 +503,7 @@ func (r *Reader) seekIndexed(want record) (*tableIter, error) {
 		}
 
 		if tabIter.typ != blockTypeIndex {
-			log.Panicf("got type %c following indexes", tabIter.typ)
+			return nil, fmt.Errorf("reftable: got type %c following indexes", tabIter.typ)
 		}
 
 		idxIter = tabIter
@@ -620,6 +632,9 @@ func (r *Reader) RefsFor(oid []byte) (*Iterator, error) {
 	if err != nil {
 		return nil, err
 	}
+	if it == nil {
+		return &Iterator{&emptyIterator{}}, nil
+	}
 	return &Iterator{&filteringRefIterator{
 		tab:         r,
 		oid:         oid,
@@ -629,6 +644,9 @@ func (r *Reader) RefsFor(oid []byte) (*Iterator, error) {
 }
 
 func (r *Reader) refsForIndexed(oid []byte) (*Iterator, error) {
+	if r.objectIDLen > len(oid) {
+		return nil, fmtError
+	}
 	want := &objRecord{HashPrefix: oid[:r.objectIDLen]}
 
 	it, err := r.seek(want)
@@ -655,6 +673,9 @@ func (r *Reader) refsForIndexed(oid []byte) (*Iterator, error) {
 		it, err := r.start(blockTypeRef, false)
 		if err != nil {
 			return nil, err
+		}
+		if it == nil {
+			return &Iterator{&emptyIterator{}}, nil
 		}
 		return &Iterator{&filteringRefIterator{
 			tab:         r,
